@@ -140,7 +140,7 @@ def run(case: dict, ctx) -> dict:
                 exts.append(e)
                 room -= len(e)
     # backing
-    bmode = rng.choice(["none", "none", "shorter", "equal", "longer", "ragged", "optout"])
+    bmode = rng.choice(["none", "none", "shorter", "equal", "longer", "ragged", "optout", "qcow2-shorter"])
     backing_name = None
     backing = None
     layers = [view.layer]
@@ -148,6 +148,21 @@ def run(case: dict, ctx) -> dict:
         backing_name = rng.choice([b"base.img", b"../dir with space/b\xc3\xa4se.raw", b"b"])
         if bmode == "optout":
             backing = ALLOW_NO_BACKING_FILE
+        elif bmode == "qcow2-shorter":
+            # the backing image is itself a QCOW2 (handed over as an opened object), shorter than this image and with a size that
+            # is not a multiple of its cluster size: what its last cluster holds beyond its size is not part of it
+            from vf.chains import EndBarrier
+
+            bcb = rng.choice([10, 12, 16])
+            bcs = 1 << bcb
+            bsize = max(SECTOR, min(size - SECTOR, bcs * rng.randrange(1, 12)) - SECTOR * rng.randrange(1, max(2, bcs // SECTOR))) if size > SECTOR else size
+            bncl = -(-bsize // bcs)
+            bkinds = [rng.choice("NNUZ") for _ in range(bncl)]
+            bkinds[-1] = "N"
+            bview = w.make_view(rng, size=bsize, cluster_bits=bcb, kinds=bkinds, extl2=False, tag=rng.getrandbits(48))
+            bimg, _, _ = w.build(rng, cluster_bits=bcb, size=bsize, views=[bview], version=3, placement="shuffle")
+            backing = call(QCow2, as_handle(bimg.to_bytes())).value
+            layers += [EndBarrier(bsize), bview.layer]
         else:
             blen = {"shorter": max(size // 2 - rng.randrange(0, 3) * SECTOR, 0), "equal": size, "longer": size + 3 * cs,
                     "ragged": max(size - rng.randrange(1, 4 * cs), 0) // 1 + rng.randrange(0, SECTOR)}[bmode]
